@@ -3,6 +3,7 @@
 package storeops
 
 import (
+	"github.com/sergeii/swat4master/internal/core/entities/details"
 	"encoding/hex"
 	"errors"
 	"fmt"
@@ -25,6 +26,16 @@ import (
 // Server spec: <ip>:<port>/<queryport>/<status>/<version>/<refreshedNs|z>
 func ParseServer(tok string) (server.Server, error) {
 	parts := strings.Split(tok, "/")
+	// optional sixth part p<K>: the record carries K players (p0 … with scores 0 …) in its details, named after the record (p<j>@<addr>)
+	nPlayers := 0
+	if len(parts) == 6 && strings.HasPrefix(parts[5], "p") {
+		k, err := strconv.Atoi(parts[5][1:])
+		if err != nil || k < 0 || k > 64 {
+			return server.Blank, fmt.Errorf("bad player count in %q", tok)
+		}
+		nPlayers = k
+		parts = parts[:5]
+	}
 	if len(parts) != 5 {
 		return server.Blank, fmt.Errorf("bad server spec %q", tok)
 	}
@@ -43,6 +54,9 @@ func ParseServer(tok string) (server.Server, error) {
 		return server.Blank, fmt.Errorf("bad numbers in %q", tok)
 	}
 	s := server.Server{Addr: addr.NewForTesting(net.ParseIP(host), pn), QueryPort: qp, DiscoveryStatus: ds.DiscoveryStatus(st), Version: ver}
+	for j := 0; j < nPlayers; j++ {
+		s.Details.Players = append(s.Details.Players, details.Player{Name: fmt.Sprintf("p%d@%s", j, parts[0]), Score: j + pn%7})
+	}
 	if parts[4] != "z" {
 		ns, err := strconv.ParseInt(parts[4], 10, 64)
 		if err != nil {
@@ -58,7 +72,15 @@ func RenderServer(s server.Server) string {
 	if !s.RefreshedAt.IsZero() {
 		r = strconv.FormatInt(s.RefreshedAt.UnixNano(), 10)
 	}
-	return fmt.Sprintf("%s/%d/%d/%d/%s", s.Addr.String(), s.QueryPort, int(s.DiscoveryStatus), s.Version, r)
+	out := fmt.Sprintf("%s/%d/%d/%d/%s", s.Addr.String(), s.QueryPort, int(s.DiscoveryStatus), s.Version, r)
+	if len(s.Details.Players) > 0 { // the players a returned record carries: name~score of each, in order
+		names := make([]string, len(s.Details.Players))
+		for i, pl := range s.Details.Players {
+			names[i] = fmt.Sprintf("%x~%d", pl.Name, pl.Score)
+		}
+		out += "/players=" + strings.Join(names, "+")
+	}
+	return out
 }
 
 // Resolver behaviours (mirrored by Lean `Swat4.Drv.resolverOf`):
